@@ -425,6 +425,13 @@ def check(c):
             long_history_tie(c)
             vocabulary_family(c)
             long_utterance_finish(c, st)
+        elif any(o[0].startswith("lake build of the model driver") and o[1] for o in c.obligations) and not st["ready"]():
+            # a proof obligation no longer checks (c01.run_check stopped there); the model drivers were built and pinned
+            # first: search for a failing input with the families of this module (the violation then comes with a replay)
+            c01.private_harnesses(c.scratch)
+            c01.snapshot_driver(c.scratch)
+            vocabulary_family(c)
+            long_utterance_finish(c, st)
     finally:
         st["stop"] = True
         fix_trusted(c)
